@@ -41,7 +41,7 @@ COMPONENTS = {
     "simulated": ["edit-operation history (seeded)", "output file in tmpfs scratch", "clock seen by zipfile/openpyxl (frozen)", "sys.argv/stdout/stderr of potable"],
     "stubbed": [],
 }
-EXPECTED_PROBES = ["whitespace-variant-key", "same-key-overridden-twice", "model-rejects-operation", "last-key-of-section-removed",
+EXPECTED_PROBES = ["edit-of-item-removed-earlier", "same-item-added-twice", "whitespace-variant-key", "same-key-overridden-twice", "model-rejects-operation", "last-key-of-section-removed",
                    "add-creates-section", "target-changed-by-override", "remove-then-add-same-key", "value-contains-delimiter",
                    "cli-several-options-of-one-kind", "query-list-items", "query-item-value", "table-form-section-edited",
                    "second-parser-after-edits"]
@@ -235,7 +235,12 @@ def gen_ops(rng, spec, route):
             kind = "add"
         q = rng.random()
         if kind in ("override", "remove"):
-            if existing and q < 0.93:
+            if removed_keys and rng.random() < 0.12:
+                # an item removed earlier in this sequence: by hand it no longer exists
+                sec_name, nk = rng.choice(removed_keys)
+                key = nk if rng.random() < 0.5 else ws_variant(rng, nk)
+                v0 = None
+            elif existing and q < 0.93:
                 nk, k0, v0 = rng.choice(existing)
                 key = k0 if rng.random() < 0.6 else ws_variant(rng, nk)
             elif q < 0.97:
@@ -274,7 +279,12 @@ def gen_ops(rng, spec, route):
                     pass
         else:
             # additions are applied after all overrides/removals: generate against the current model
-            if q < 0.25 and removed_keys:
+            added = [(o["section"], norm_key(o["key"])) for o in ops if o["kind"] == "add"]
+            if added and rng.random() < 0.1:
+                # the same new item added a second time: the second addition must be rejected
+                sec_name, nk = rng.choice(added)
+                key = nk if rng.random() < 0.5 else ws_variant(rng, nk)
+            elif q < 0.25 and removed_keys:
                 sec_name, nk = rng.choice(removed_keys)
                 key = nk if rng.random() < 0.6 else ws_variant(rng, nk)
             elif 0.25 <= q < 0.33 and existing:
@@ -588,6 +598,10 @@ def op_features(sc):
             f.add("same-key-overridden-twice")
         if o["kind"] == "add" and seen.get(ident) == "remove":
             f.add("remove-then-add-same-key")
+        if o["kind"] in ("override", "remove") and seen.get(ident) == "remove":
+            f.add("edit-of-item-removed-earlier")
+        if o["kind"] == "add" and seen.get(ident) == "add":
+            f.add("same-item-added-twice")
         seen[ident] = o["kind"]
         if o["kind"] == "override" and o["section"] == "Tabulation" and nk == "target":
             f.add("target-changed-by-override")
